@@ -341,7 +341,7 @@ func (ww *conversionVisitor) visitEnumNode(node *sourcewalk.EnumNode) {
 	}
 
 	optionsToSet := node.Schema.Options
-	if len(optionsToSet) > 0 && optionsToSet[0].Number == 0 && strings.HasSuffix(optionsToSet[0].Name, "UNSPECIFIED") {
+	if len(optionsToSet) > 0 && isExplicitUnspecified(prefix, optionsToSet[0]) {
 		eb.addValue(0, optionsToSet[0])
 		optionsToSet = optionsToSet[1:]
 	}
